@@ -54,7 +54,7 @@ func (g Graph) Build() *astisub.Subtitles {
 		}
 		ln := astisub.Line{VoiceName: fmt.Sprintf("v%d", i)}
 		for j, r := range c.Runs {
-			li := astisub.LineItem{Text: fmt.Sprintf("t%d%d", i, j), InlineStyle: &astisub.StyleAttributes{SRTBold: true}}
+			li := astisub.LineItem{Text: fmt.Sprintf("t%d%d", i, j), StartAt: time.Duration(1000+j) * time.Millisecond, InlineStyle: &astisub.StyleAttributes{SRTBold: true}}
 			if r != "" {
 				li.Style = s.Styles[r]
 			}
@@ -274,7 +274,7 @@ func plainSnap(s *astisub.Subtitles) string {
 		for _, l := range it.Lines {
 			fmt.Fprintf(&b, "{%q", l.VoiceName)
 			for _, li := range l.Items {
-				fmt.Fprintf(&b, "[%q]", li.Text)
+				fmt.Fprintf(&b, "[%q at=%d]", li.Text, li.StartAt) // the inline timestamp of a run is timing, not styling
 			}
 			b.WriteString("}")
 		}
